@@ -316,7 +316,8 @@ def replay_kani(job, scratch, prop):
     res = {"reproduced": [], "release": [], "tests": "", "generated": 0}
     try:
         # producing the trace costs CBMC several times the plain verification run (measured 4x on a 300-step harness)
-        rc, out, _ = run_cmd(kani_cmd(job, td, playback="print"), crate, max(1800, job.timeout * 4), job.mem_gb)
+        # (and more memory: replays run one at a time)
+        rc, out, _ = run_cmd(kani_cmd(job, td, playback="print"), crate, max(1800, job.timeout * 4), max(job.mem_gb, 24))
         if rc is None:
             res["detail"] = "Kani did not finish producing the playback test within %ds" % max(1800, job.timeout * 4)
         tests = list(PLAYBACK_RE.finditer(out))
